@@ -480,19 +480,20 @@ impl Evaluate for Instance {
             // As in `evaluate`, dependencies may refer to variables fixed by `partial_evaluate`.
             // Their values are made available while resolving dependencies only, since the
             // sampled values of fixed variables are given by `substituted_value`.
+            // A fixed value takes precedence over a value given in the state, as in `evaluate`.
             let mut fixed = Vec::new();
             for v in &self.decision_variables {
                 if let Some(value) = v.substituted_value {
-                    if let HashMapEntry::Vacant(e) = state.entries.entry(v.id) {
-                        e.insert(value);
-                        fixed.push(v.id);
-                    }
+                    fixed.push((v.id, state.entries.insert(v.id, value)));
                 }
             }
             let mut new = eval_dependencies(&self.decision_variable_dependency, state)?;
             used_ids.append(&mut new);
-            for id in fixed {
-                state.entries.remove(&id);
+            for (id, given) in fixed {
+                match given {
+                    Some(value) => state.entries.insert(id, value),
+                    None => state.entries.remove(&id),
+                };
             }
             // As in `evaluate`, a variable without a value takes the value nearest to zero within its bound
             for v in &self.decision_variables {
